@@ -41,15 +41,18 @@ type callT struct {
 	Outcome string `json:"outcome"`
 }
 
+type reqT struct {
+	Hash string `json:"hash"`
+	Pss  bool   `json:"pss"`
+}
+
 type beh struct {
 	Cfg struct {
 		Spec  string `json:"spec"`
 		IDSet bool   `json:"idSet"`
 	} `json:"cfg"`
-	Req struct {
-		Hash string `json:"hash"`
-		Pss  bool   `json:"pss"`
-	} `json:"req"`
+	Req    reqT   `json:"req"`  // the request in progress when the behaviour ended
+	Reqs   []reqT `json:"reqs"` // requests served before it, on the same key object
 	Faults struct {
 		Get  string `json:"get"`
 		Sign string `json:"sign"`
@@ -129,7 +132,7 @@ func replayOne(r *res.Result, w *world, b *beh) {
 	key := map[string]string{"engine": "cloud-key", "spec": b.Cfg.Spec, "hash": b.Req.Hash}
 	fail := func(class, format string, a ...any) {
 		key["class"] = class
-		r.Fail(key, b, "%s key, digest %s, pss=%v, faults %+v: %s", b.Cfg.Spec, b.Req.Hash, b.Req.Pss, b.Faults, fmt.Sprintf(format, a...))
+		r.Fail(key, b, "%s key, requests %+v then %+v, faults %+v: %s", b.Cfg.Spec, b.Reqs, b.Req, b.Faults, fmt.Sprintf(format, a...))
 	}
 	noneIsEmpty := func(f string) string {
 		if f == "none" {
@@ -145,9 +148,18 @@ func replayOne(r *res.Result, w *world, b *beh) {
 	ctx, cancel := context.WithTimeout(context.Background(), 90*time.Second)
 	defer cancel()
 	var got string
-	var sig, digest []byte
 	var pub crypto.PublicKey
-	h := hashes[b.Req.Hash]
+	seq := append([]reqT{}, b.Reqs...)
+	if len(seq) == 0 || b.Result != "signature" {
+		seq = append(seq, b.Req)
+	}
+	type made struct {
+		h      crypto.Hash
+		pss    bool
+		digest []byte
+		sig    []byte
+	}
+	var sigs []made
 	func() {
 		defer func() {
 			if p := recover(); p != nil {
@@ -166,17 +178,22 @@ func replayOne(r *res.Result, w *world, b *beh) {
 			return
 		}
 		pub = k.Public()
-		d := h.New()
-		d.Write([]byte("what is being signed: " + name))
-		digest = d.Sum(nil)
-		var opts crypto.SignerOpts = h
-		if b.Req.Pss {
-			opts = &rsa.PSSOptions{SaltLength: rsa.PSSSaltLengthEqualsHash, Hash: h}
-		}
-		sig, err = k.SignContext(ctx, digest, opts)
-		if err != nil {
-			got = "error"
-			return
+		for i, rq := range seq {
+			h := hashes[rq.Hash]
+			d := h.New()
+			d.Write([]byte(fmt.Sprintf("what is being signed: %s #%d", name, i)))
+			digest := d.Sum(nil)
+			var opts crypto.SignerOpts = h
+			if rq.Pss {
+				opts = &rsa.PSSOptions{SaltLength: rsa.PSSSaltLengthEqualsHash, Hash: h}
+			}
+			sigs = append(sigs, made{h: h, pss: rq.Pss, digest: digest})
+			sig, err := k.SignContext(ctx, digest, opts)
+			if err != nil {
+				got = "error"
+				return
+			}
+			sigs[len(sigs)-1].sig = sig
 		}
 		got = "signature"
 	}()
@@ -190,6 +207,7 @@ func replayOne(r *res.Result, w *world, b *beh) {
 		return
 	}
 	wantID := w.keys[b.Cfg.Spec].ID
+	nsign := 0
 	for i, c := range calls {
 		e := b.Calls[i]
 		if c.Op != e.Op || c.Outcome != e.Outcome || (c.Op == "Sign" && (c.Algorithm != e.Alg || c.MsgType != e.Mtype)) {
@@ -204,9 +222,19 @@ func replayOne(r *res.Result, w *world, b *beh) {
 			fail("request", "remote call %d carries no SigV4 signature for the kms service", i+1)
 			return
 		}
-		if c.Op == "Sign" && !bytes.Equal(c.Message, digest) {
-			fail("request", "remote call %d carries %d bytes that are not the caller's digest", i+1, len(c.Message))
-			return
+		if c.Op == "Sign" {
+			// the request this call belongs to: calls are in order, a request ends with its successful call
+			ri := nsign
+			if ri >= len(sigs) {
+				ri = len(sigs) - 1
+			}
+			if ri < 0 || !bytes.Equal(c.Message, sigs[ri].digest) {
+				fail("request", "remote call %d carries %d bytes that are not the caller's digest", i+1, len(c.Message))
+				return
+			}
+			if c.Outcome == "ok" {
+				nsign++
+			}
 		}
 	}
 	if got == "signature" {
@@ -214,9 +242,11 @@ func replayOne(r *res.Result, w *world, b *beh) {
 			fail("public-key", "the token reports a public key that is not the service's key")
 			return
 		}
-		if err := verify(pub, h, b.Req.Pss, digest, sig); err != nil {
-			fail("signature", "the returned signature does not verify under the key with the caller's options: %v", err)
-			return
+		for i, m := range sigs {
+			if err := verify(pub, m.h, m.pss, m.digest, m.sig); err != nil {
+				fail("signature", "signature %d of %d on this key object does not verify under the key with the caller's options (pss=%v): %v", i+1, len(sigs), m.pss, err)
+				return
+			}
 		}
 	}
 }
